@@ -31,8 +31,8 @@ Bump(rows, l, k) == IF l \in DOMAIN rows THEN [rows EXCEPT ![l] = @ + k] ELSE (l
 
 \* ------------------------------------------------------------------ PHYLIP
 PhErr(s) == [s EXCEPT !.outcome = "ParseError"]
-PhStart(lines, inter, ign) ==
-    LET s0 == [ign |-> ign, ntax |-> 0, nchar |-> 0, rows |-> NoRowsL, order |-> <<>>, cur |-> "", paged |-> FALSE, prow |-> -1,
+PhStart(lines, inter, ign, cont) ==
+    LET s0 == [ign |-> ign, cont |-> cont, ntax |-> 0, nchar |-> 0, rows |-> NoRowsL, order |-> <<>>, cur |-> "", paged |-> FALSE, prow |-> -1,
                inter |-> inter, outcome |-> "none"]
         d == lines[1]
     IN IF Len(lines) <= 2 THEN PhErr(s0)                                   \* "Expecting at least 2 lines"
@@ -46,7 +46,11 @@ PhTaxon(s, line) ==
     ELSE IF l \notin DOMAIN s.rows /\ Cardinality(DOMAIN s.rows) >= s.ntax THEN PhErr(s)    \* more taxa than declared
     ELSE [s EXCEPT !.rows = Bump(s.rows, l, 0), !.cur = l,
                    !.order = IF l \in DOMAIN s.rows THEN @ ELSE Append(@, l)]
-PhAdd(s, ts) == IF s.ign THEN [s EXCEPT !.rows = Bump(s.rows, s.cur, ValidLen(ts))]
+\* data_type = "continuous": every blank separated value is one state
+ContLen(ts) == IF \A i \in 1..Len(ts) : ts[i] \in NumToks \cup RealToks THEN Len(ts) ELSE -1
+PhAdd(s, ts) == IF s.cont THEN (IF ContLen(ts) < 0 /\ ~s.ign THEN PhErr(s)
+                                ELSE [s EXCEPT !.rows = Bump(s.rows, s.cur, IF ContLen(ts) < 0 THEN 0 ELSE ContLen(ts))])
+                ELSE IF s.ign THEN [s EXCEPT !.rows = Bump(s.rows, s.cur, ValidLen(ts))]
                 ELSE IF RunLen(ts) < 0 THEN PhErr(s) ELSE [s EXCEPT !.rows = Bump(s.rows, s.cur, RunLen(ts))]
 PhLineSeq(s, line) ==
     IF line = <<>> THEN s
